@@ -75,6 +75,15 @@ def _configs(tier, salts):
                             tier == "thorough" and salt == 0 and prob == "rosen" and mode in ("boxball_fine", "doc_ballbox")):
                         depth, letters = 2, ["best", "tie", "x3", "nan"]
                     out.append((cfg, {"depth": depth, "letters": letters}))
+            # warm start: x0 is already the exact minimiser of a nonzero-residual problem, so no run can improve on it
+            # (every restart is then an 'unsuccessful' one from the very beginning)
+            if mode in ("plain", "soft", "soft_nomove", "soft_inc", "hard_old", "hard_new", "bounds", "l1") and (salt == 0 or tier == "thorough"):
+                for maxfun in ((13, 30) if mode != "l1" else (10,)):
+                    cfg = _mk("rosen", mode, maxfun, salt)
+                    cfg["prob"] = {"f": "lin", "A": [[1.0, 0.0], [0.0, 1.0], [0.0, 0.0]], "b": [0.0, 0.0, -1.0 - 0.1 * salt], "salt": salt}
+                    cfg["x0"] = [0.0, 0.0]
+                    cfg["tag_start"] = "at_min_nonzero_residual"
+                    out.append((cfg, {"depth": 0 if mode == "l1" else 1, "letters": LETTERS}))
     return out
 
 
